@@ -6,6 +6,7 @@ pub fn run(item: &str, repo: &str, out: &str) -> Option<Result<String, String>> 
     match item {
         "rangediff-ops" => Some(rangediff_ops(repo, out)),
         "supplier-status-map" => Some(supplier_status_map(repo, out)),
+        "range-entry-ops" => Some(range_entry_ops(repo, out)),
         _ => None,
     }
 }
@@ -665,4 +666,122 @@ fn supplier_status_map(repo: &str, out: &str) -> Result<String, String> {
         "SupplierMap: 5 arms, consumerArgFirst={consumer_first}, empty={:?}, domain={:?}",
         empty_reply, domain_reply
     ))
+}
+
+// ---------------------------------------------------------------------------------------------
+// range-entry-ops: bound kinds of `range_to_idl` (repl/ruv.rs) and the per-attribute window test of
+// `ReplIncrementalEntryV1::new` (repl/proto.rs)
+// ---------------------------------------------------------------------------------------------
+
+struct Finder {
+    ranges: Vec<syn::ExprMethodCall>,
+    closures: Vec<syn::ExprClosure>,
+    unwrap_or: Vec<String>,
+    is_repl: usize,
+}
+impl<'ast> syn::visit::Visit<'ast> for Finder {
+    fn visit_expr_method_call(&mut self, m: &'ast syn::ExprMethodCall) {
+        if m.method == "range" {
+            self.ranges.push(m.clone());
+        }
+        if m.method == "unwrap_or" && m.args.len() == 1 {
+            self.unwrap_or.push(nsp(&m.args[0]));
+        }
+        if m.method == "is_replicated" {
+            self.is_repl += 1;
+        }
+        syn::visit::visit_expr_method_call(self, m);
+    }
+    fn visit_expr_closure(&mut self, c: &'ast syn::ExprClosure) {
+        if c.inputs.len() == 1 && nsp(&c.inputs[0]) == "repl_range" {
+            self.closures.push(c.clone());
+        }
+        syn::visit::visit_expr_closure(self, c);
+    }
+}
+
+fn bound(e: &syn::Expr, which: &str) -> Result<String, String> {
+    let t = nsp(e);
+    let var = if which == "lower" { "rmin" } else { "rmax" };
+    let field = if which == "lower" { "ctx_range.ts_min" } else { "ctx_range.ts_max" };
+    let cmp = |strict: bool| match (which, strict) {
+        ("lower", true) => format!("decide ({var} < ts)"),
+        ("lower", false) => format!("decide ({var} ≤ ts)"),
+        (_, true) => format!("decide (ts < {var})"),
+        (_, false) => format!("decide (ts ≤ {var})"),
+    };
+    if t == "Unbounded" {
+        Ok("true".into())
+    } else if t == format!("Excluded({field})") {
+        Ok(cmp(true))
+    } else if t == format!("Included({field})") {
+        Ok(cmp(false))
+    } else {
+        Err(format!("range_to_idl: unrecognised {which} bound `{t}`"))
+    }
+}
+
+fn range_entry_ops(repo: &str, out: &str) -> Result<String, String> {
+    use syn::visit::Visit;
+    let rel = "server/lib/src/repl/ruv.rs";
+    let ast = parse_file(repo, rel)?;
+    let f = find_fn(&ast, "ReplicationUpdateVectorTransaction::range_to_idl")?;
+    let mut fd = Finder { ranges: vec![], closures: vec![], unwrap_or: vec![], is_repl: 0 };
+    fd.visit_block(&f.block);
+    if fd.ranges.len() != 1 || fd.ranges[0].args.len() != 1 {
+        return Err(format!("range_to_idl: expected exactly one `.range((lo, hi))` call, found {}", fd.ranges.len()));
+    }
+    if nsp(&fd.ranges[0].receiver) != "ruv_range" {
+        return Err(format!("range_to_idl: `.range` on `{}`", nsp(&fd.ranges[0].receiver)));
+    }
+    let (lo, hi) = match &fd.ranges[0].args[0] {
+        syn::Expr::Tuple(t) if t.elems.len() == 2 => (bound(&t.elems[0], "lower")?, bound(&t.elems[1], "upper")?),
+        o => return Err(format!("range_to_idl: range argument `{}` is not a pair of bounds", nsp(o))),
+    };
+    let rel2 = "server/lib/src/repl/proto.rs";
+    let ast2 = parse_file(repo, rel2)?;
+    let g = find_fn(&ast2, "ReplIncrementalEntryV1::new")?;
+    let mut gd = Finder { ranges: vec![], closures: vec![], unwrap_or: vec![], is_repl: 0 };
+    gd.visit_block(&g.block);
+    if gd.closures.len() != 1 {
+        return Err(format!("ReplIncrementalEntryV1::new: expected one `|repl_range|` closure, found {}", gd.closures.len()));
+    }
+    let body = match &*gd.closures[0].body {
+        syn::Expr::Block(b) if b.block.stmts.len() == 1 => match &b.block.stmts[0] {
+            syn::Stmt::Expr(e, None) => e.clone(),
+            o => return Err(format!("window closure body `{}`", toks(o))),
+        },
+        e => e.clone(),
+    };
+    let v = vars(&[("cid.ts", "ts"), ("repl_range.ts_min", "rmin"), ("repl_range.ts_max", "rmax")]);
+    let within = lean_expr(&body, &v)?;
+    let missing = match gd.unwrap_or.as_slice() {
+        [x] if x == "false" || x == "true" => x.clone(),
+        o => return Err(format!("ReplIncrementalEntryV1::new: unwrap_or arguments {o:?}")),
+    };
+    let nb = nsp(&g.block);
+    if gd.is_repl != 1 || !nb.contains("letwithin=schema.is_replicated(attr_name)&&ctx_range.get(&cid.s_uuid).map(") {
+        return Err("ReplIncrementalEntryV1::new: `within = schema.is_replicated(attr_name) && ctx_range.get(&cid.s_uuid).map(..)` not found".into());
+    }
+    if !nb.contains("State::Tombstone{at}=>ReplStateV1::Tombstone{at:at.into()}") {
+        return Err("ReplIncrementalEntryV1::new: tombstone arm is not `ReplStateV1::Tombstone { at: at.into() }`".into());
+    }
+    let mut s = String::from("namespace Kanidm.Gen.RangeEntries
+");
+    s += &format!("/-- lower bound of `{}` -/
+def idlLower (ts rmin : Nat) : Bool := {lo}
+", toks(&fd.ranges[0].args[0]));
+    s += &format!("/-- upper bound of the same call -/
+def idlUpper (ts rmax : Nat) : Bool := {hi}
+");
+    s += &format!("/-- `{}` -/
+def attrWithin (ts rmin rmax : Nat) : Bool := {within}
+", toks(&body));
+    s += &format!("/-- `.unwrap_or({missing})`: server of the cid not in the supplied ranges -/
+def attrMissingRange : Bool := {missing}
+");
+    s += "end Kanidm.Gen.RangeEntries
+";
+    write_generated(out, "RangeEntryOps", &format!("{rel} (fn range_to_idl), {rel2} (fn ReplIncrementalEntryV1::new)"), &s)?;
+    Ok(format!("RangeEntryOps: lower `{lo}`, upper `{hi}`, within `{within}`"))
 }
